@@ -104,6 +104,8 @@ impl Modulator for Tweener {
 	}
 
 	fn finished(&self) -> bool {
+		#[cfg(kira_verif)]
+		crate::verif::yield_point("tweener.removed.load");
 		self.shared.removed.load(Ordering::SeqCst)
 	}
 }
